@@ -1,5 +1,6 @@
 """C14: .g2o import is faithful to the file (G2O.tla: ParseLine dispatch, line-local and order-preserving fold; binding A)."""
 import logging
+import pathlib
 import math
 import os
 import random
@@ -252,7 +253,8 @@ def check(run):
             key = dict(custom=has_custom, shadowed_builtin_tag=shadow[n])
             run.count(key=n, nontrivial=True)
             try:
-                g, logs = load_with_log(Graph.from_g2o, path, custom_edge_types=[GG.DistEdgeA, GG.DistEdgeB] + ([GG.ShadowSE2] if shadow[n] else []))
+                # (the path is handed over as a str or as a pathlib.Path, alternately)
+                g, logs = load_with_log(Graph.from_g2o, path if n % 2 else pathlib.Path(path), custom_edge_types=[GG.DistEdgeA, GG.DistEdgeB] + ([GG.ShadowSE2] if shadow[n] else []))
             except Exception as ex:  # noqa
                 run.violation(dict(key, outcome='raised'), 'Graph.from_g2o raised %r on a well-formed file' % (ex,), dict(file=text))
                 continue
@@ -266,7 +268,7 @@ def check(run):
             if not has_custom:
                 for name in ('load_g2o', 'load_g2o_r2', 'load_g2o_r3', 'load_g2o_se2', 'load_g2o_se3'):
                     try:
-                        g2, logs2 = load_with_log(getattr(load_mod, name), path)
+                        g2, logs2 = load_with_log(getattr(load_mod, name), pathlib.Path(path) if n % 2 else path)
                     except Exception as ex:  # noqa
                         run.violation(dict(key, outcome='entry-point', entry=name), '%s raised %r' % (name, ex), dict(file=text))
                         break
